@@ -843,9 +843,11 @@ def enc_size_stream(g, n=40, start_id=7000):
     shrink/grow in every order, zero first/last, several blocks after one change; decoded by a piped decoder"""
     ops = []
     rnd = g.rnd
-    pool = [0, 33, 34, 40, 64, 66, 100, 200, 300, 4096, 4097, 8192]
+    pool = [0, 30, 31, 32, 33, 34, 40, 64, 66, 100, 158, 159, 200, 300, 4096, 4097, 8192]
     cat = [[40, 40], [40, 4096], [4096, 40, 4096], [200, 0, 200], [200, 100, 300, 200], [0], [0, 4096], [100, 0], [0, 100],
-           [64, 4096], [4096, 64], [40, 100, 40], [100, 40, 100], [8192], [8192, 4096], [33, 34, 33], [0, 0], [4096], [4096, 4096, 4096]]
+           [64, 4096], [4096, 64], [40, 100, 40], [100, 40, 100], [8192], [8192, 4096], [33, 34, 33], [0, 0], [4096], [4096, 4096, 4096],
+           [31], [64, 31, 31], [30, 31, 32], [158, 159], [40, 100, 60], [200, 40, 200],
+           [0] + list(range(1000, 1200, 10)) + [4096], list(range(4000, 4040)), [100 + (7 * j) % 50 for j in range(30)] + [35]]
     i = start_id
     for seq in cat + [[rnd.choice(pool) for _ in range(rnd.randint(1, 5))] for _ in range(n)]:
         i += 1
@@ -866,3 +868,337 @@ def enc_size_stream(g, n=40, start_id=7000):
                 ops.append('eenc %d 0 %s' % (i, '%s:%s:0' % (hx(b'a'), hx(b'b'))))
                 ops.append('pipe %d 1 %d' % (i, i))
     return ops
+
+
+# ====================================================================================================
+# round-2 additions (histories that sneaky caches / fast paths / boundary shortcuts need to manifest)
+# ====================================================================================================
+def _lit(g, pat, n, v, hn=False, hv=False):
+    return bytes([pat]) + g.string(n, hn, 0) + g.string(v, hv, 0)
+
+
+def dec_updates_stream(g, n=30, start_id=11000):
+    """non-empty tables, then blocks that OPEN WITH RUNS of 2..6 size updates (minimum first / in the middle /
+    last; values around the sizes of the entries held), then references to every index up to past the end"""
+    ops = []
+    rnd = g.rnd
+    d = start_id
+    for _ in range(n):
+        d += 1
+        ops.append('dnew %d 1000000' % d)
+        ops.append('dallow %d 8192' % d)
+        sizes = []
+        blk = b''
+        for i in range(rnd.randint(1, 5)):
+            nm = bytes([97 + i]) * rnd.randint(1, 6)
+            v = bytes([48 + i]) * rnd.randint(0, 40)
+            blk += _lit(g, 0x40, nm, v)
+            sizes.append(32 + len(nm) + len(v))
+        ops.append('ddec %d 1 %s' % (d, hx(blk)))
+        tot = sum(sizes)
+        marks = sorted({0, sizes[-1], sizes[-1] - 1, sizes[-1] + 1, tot, tot - 1, sum(sizes[-2:]), sum(sizes[-2:]) + 1, 40, 100, 4096, 8192, 8193, tot + 50})
+        marks = [m for m in marks if m >= 0]
+        for _r in range(rnd.randint(1, 3)):
+            k = rnd.choice([2, 3, 3, 3, 4, 5, 6])
+            run = [rnd.choice(marks) for _ in range(k)]
+            if rnd.random() < 0.5:          # force the strict minimum into the middle
+                lo = min(marks[1:4]) if len(marks) > 3 else 0
+                run[rnd.randrange(1, k - 1) if k > 2 else 0] = lo
+            b2 = b''.join(int_octets(u, 5, 0x20, g.zeros()) for u in run)
+            tail = b''.join(int_octets(i, 7, 0x80) for i in range(62, 62 + len(sizes) + 1)) if rnd.random() < 0.6 else b''
+            ops.append('ddec %d 1 %s' % (d, hx(b2)))
+            for i in range(62, 62 + len(sizes) + 2):
+                ops.append('ddec %d 1 %s' % (d, hx(int_octets(i, 7, 0x80))))
+            if rnd.random() < 0.5:
+                nm = bytes([110 + _r]) * 3
+                ops.append('ddec %d 1 %s' % (d, hx(b2 + _lit(g, 0x40, nm, b'zz') + b'\xbe')))
+    return ops
+
+
+def ambiguity_stream(g, n_random=60, start_id=12000):
+    """the same wire octets once as a plain string and once with the Huffman flag (different strings!), on ONE
+    decoder, in both orders, as names and as values, with and without indexing"""
+    from refmodel import huff_decode, RefError
+    ops = []
+    rnd = g.rnd
+    cands = []
+    for a in range(256):
+        for w in (bytes([a]), bytes([a, 0x65]), bytes([0x34, a]), bytes([a, a])):
+            try:
+                s = huff_decode(w)
+                if s != w:
+                    cands.append((w, s))
+            except RefError:
+                pass
+    rnd.shuffle(cands)
+    d = start_id
+    for w, s in cands[:n_random]:
+        d += 1
+        ops.append('dnew %d' % d)
+        plain = bytes([len(w)]) + w
+        huff = bytes([0x80 | len(w)]) + w
+        order = [plain, huff] if rnd.random() < 0.5 else [huff, plain]
+        pat = rnd.choice([0x00, 0x10, 0x40])
+        for x in order + order[::-1]:
+            ops.append('ddec %d %d %s' % (d, rnd.choice([0, 1]), hx(bytes([pat]) + x + b'\x01\x32')))       # as name
+        for x in order:
+            ops.append('ddec %d 1 %s' % (d, hx(bytes([pat, 0x01, 0x6b]) + x)))                              # as value
+        ops.append('ddec %d 1 %s' % (d, hx(b'\xbe\xbf')))
+    return ops
+
+
+def dec_setter_stream(g, n=25, start_id=13000):
+    """fill the table, reference every dynamic index, evict through the SETTER (not in-band), reference every
+    index again (now partly invalid), grow, insert, reference again"""
+    ops = []
+    rnd = g.rnd
+    d = start_id
+    for _ in range(n):
+        d += 1
+        ops.append('dnew %d 1000000' % d)
+        k = rnd.randint(2, 6)
+        blk = b''.join(_lit(g, 0x40, bytes([97 + i]) * 2, bytes([48 + i]) * rnd.randint(0, 20)) for i in range(k))
+        ops.append('ddec %d 1 %s' % (d, hx(blk)))
+        refs = [int_octets(i, 7, 0x80) for i in range(62, 62 + k + 1)]
+        for r in refs:
+            ops.append('ddec %d %d %s' % (d, rnd.choice([0, 1]), hx(r)))
+        for newsize in [rnd.choice([0, 34, 40, 70, 100, 150]), rnd.choice([0, 4096, 60, 200])]:
+            ops.append('dsize %d %d' % (d, newsize))
+            for r in refs:
+                ops.append('ddec %d %d %s' % (d, rnd.choice([0, 1]), hx(r)))
+            if rnd.random() < 0.5:
+                ops.append('ddec %d 1 %s' % (d, hx(int_octets(62, 6, 0x40) + g.string(b'nv', False, 0))))
+                ops.append('ddec %d 1 %s' % (d, hx(refs[0])))
+    return ops
+
+
+def dec_extra_catalogue(g):
+    """single deterministic histories added after the second seeding round"""
+    ops = []
+    d = 14000
+    def new(*a):
+        nonlocal d
+        d += 1
+        ops.append('dnew %d %s' % (d, ' '.join(str(x) for x in a)) if a else 'dnew %d' % d)
+        return d
+    # thousands of consecutive size updates (recursion / re-scan)
+    x = new()
+    ops.append('ddec %d 1 %s' % (x, hx(b'\x20' * 3000)))
+    ops.append('ddec %d 1 %s' % (x, hx(b'\x3f\xe1\x1f' * 1500 + b'\x82')))
+    ops.append('ddec %d 1 %s' % (x, hx(b'\x20' * 2500 + b'\x3f\xe2\x1f')))          # run ending in an oversized update
+    # table switched off, then on again by an update that opens the very block that inserts (buffer kinds)
+    for ann in ('', ' #buf=bytearray', ' #buf=memoryview-bytearray', ' #buf=shared'):
+        x = new()
+        ops.append('ddec %d 1 20' % x)
+        ops.append('ddec %d 1 %s%s' % (x, hx(int_octets(200, 5, 0x20) + _lit(g, 0x40, b'abc', b'xyz') + _lit(g, 0x40, b'de', b'')), ann))
+        ops.append('ddec %d 1 be%s' % (x, ann)); ops.append('ddec %d 1 bfbe' % x)
+        x = new()
+        ops.append('dsize %d 0' % x)
+        ops.append('ddec %d 1 %s%s' % (x, hx(int_octets(100, 5, 0x20) + _lit(g, 0x40, b'abc', b'xyz')), ann))
+        ops.append('ddec %d 1 be' % x)
+    # an entry that exactly fills the table, in every buffer kind
+    for ann in ('', ' #buf=bytearray', ' #buf=memoryview', ' #buf=shared'):
+        x = new()
+        ops.append('ddec %d 1 %s%s' % (x, hx(int_octets(100, 5, 0x20) + _lit(g, 0x40, b'n' * 30, b'v' * 38)), ann))
+        ops.append('ddec %d 1 be' % x)
+        x = new()
+        ops.append('ddec %d 1 %s%s' % (x, hx(_lit(g, 0x40, b'n' * 64, b'v' * 4000)), ann))
+        ops.append('ddec %d 1 be' % x)
+    # permitted maximum lowered, raised (still below the table size), lowered again; updates equal to the size in force
+    x = new()
+    for a in (64, 100):
+        ops.append('dallow %d %d' % (x, a))
+    ops.append('ddec %d 1 82' % x); ops.append('ddec %d 1 -' % x)
+    ops.append('ddec %d 1 %s' % (x, hx(int_octets(4096, 5, 0x20) + b'\x82')))
+    ops.append('ddec %d 1 %s' % (x, hx(int_octets(4096, 5, 0x20) + int_octets(4096, 5, 0x20))))
+    x = new()
+    ops.append('ddec %d 1 %s' % (x, hx(int_octets(1000, 5, 0x20) + _lit(g, 0x40, b'a', b'b'))))
+    ops.append('dallow %d 999' % x)
+    ops.append('ddec %d 1 %s' % (x, hx(int_octets(1000, 5, 0x20) + b'\xbe')))
+    ops.append('ddec %d 1 %s' % (x, hx(int_octets(1000, 5, 0x20))))
+    ops.append('dallow %d 0' % x); ops.append('dallow %d 4095' % x); ops.append('ddec %d 1 82' % x)
+    # the same (name, value) under every representation, text mode, one decoder (and static entries as literals)
+    x = new()
+    for raw in (0, 1, 0):
+        ops.append('ddec %d %d %s' % (x, raw, hx(_lit(g, 0x40, b'tok', b'val'))))
+        ops.append('ddec %d %d %s' % (x, raw, hx(_lit(g, 0x10, b'tok', b'val'))))
+        ops.append('ddec %d %d %s' % (x, raw, hx(b'\xbe')))
+        ops.append('ddec %d %d %s' % (x, raw, hx(_lit(g, 0x00, b'tok', b'val') + _lit(g, 0x10, b'tok', b'val') + b'\xbe')))
+    for i, (n, v) in enumerate(STATIC):
+        if i % 3 == 0:
+            x = new()
+        for raw in (0, 1):
+            ops.append('ddec %d %d %s' % (x, raw, hx(_lit(g, 0x10, n, v, i % 2 == 0, i % 2 == 1))))
+            ops.append('ddec %d %d %s' % (x, raw, hx(int_octets(i + 1, 7, 0x80) + int_octets(i + 1, 4, 0x10) + g.string(v, False, 0))))
+    # list limit met exactly by fields whose Huffman form is much longer than the text (long codes), and non-UTF-8
+    # fields at the crossing point in text mode
+    for raw in (1, 0):
+        v = bytes(range(1, 25))
+        e = bytes([0x00]) + g.string(b'k', False, 0) + g.string(v, True, 0)
+        sz = 32 + 1 + len(v)
+        for lim in (sz, sz + 1, sz - 1, sz + 10):
+            x = new(lim)
+            ops.append('ddec %d %d %s' % (x, raw, hx(e)))
+        x = new(100)
+        ops.append('ddec %d 1 %s' % (x, hx(_lit(g, 0x40, b'l1', b'\xe9\xff'))))
+        ops.append('ddec %d %d %s' % (x, raw, hx(b'\x82\xbe\xbe\xbe\xbe')))
+        x = new(40)
+        ops.append('ddec %d %d %s' % (x, raw, hx(_lit(g, 0x00, b'\xff\xfe' * 3, b'vvvv'))))
+    return ops
+
+
+def int_extra_stream(g):
+    """integers at powers of 128 and 2 (digit-count boundaries), after an Encoder in the same process has emitted
+    multi-octet integers with every prefix width (process-wide caches)"""
+    ops = ['enew 1']
+    for s in (31, 100, 4096, 1000):
+        ops.append('esize 1 %d' % s)
+    ops.append('eenc 1 0 %s' % ' '.join('%s:%s:%d' % (hx(bytes([120, 45, 97 + i])), hx(b'v' * (10 + 40 * i)), i % 2) for i in range(6)))
+    ops.append('eenc 1 1 %s:%s:0' % (hx(b'x' * 300), hx(b'y' * 2000)))
+    for N in range(1, 9):
+        m = 2 ** N - 1
+        vals = set()
+        for k in range(1, 10):
+            for dlt in (-1, 0, 1):
+                vals.add(128 ** k + dlt); vals.add(128 ** k + m + dlt); vals.add(128 ** k + m - 1 + dlt)
+        for j in range(0, 72):
+            vals.add(2 ** j); vals.add(2 ** j - 1); vals.add(2 ** j + 1)
+        vals |= {1000, 1337, 31, 32, 127, 128, 255, 256, 16383, 16384}
+        for v in sorted(x for x in vals if x >= 0):
+            ops.append('ienc %d %d' % (v, N))
+    # and again, to see a cache hit
+    for N in (4, 5, 6, 7):
+        for v in (31, 32, 1000, 4096, 16384, 100000):
+            ops.append('ienc %d %d' % (v, N))
+    for N in range(1, 9):
+        for v in (1000, 16384, 2 ** 32):
+            e = int_octets(v, N)
+            ops.append('idec %s %d' % (hx(e), N))
+    return ops
+
+
+def huff_extra_stream(g):
+    """another coder over a different table used in the same process first; strings longer than 4 KiB whose last
+    code bits are zero / one; in-place reused buffers"""
+    ops = []
+    rnd = g.rnd
+    pool = [b'www.example.com', b'0', b'00', b'no-cache', bytes(range(32, 90)), b'X' * 100, b'a', b'\x00\xff']
+    for s in pool:
+        ops.append('hother ' + hx(s))
+        ops.append('henc ' + hx(s))
+        ops.append('hrt ' + hx(s))
+    for ch in (b'0', b'1', b'E', b'=', b'X', b'a', b';'):
+        for ln in (4096, 4097, 4098, 4100, 8191, 8193, 9000):
+            ops.append('henc ' + hx(ch * ln))
+    for _ in range(6):
+        ln = rnd.choice([4097, 5000, 6001, 8200])
+        s = bytes(rnd.choice(b'0123456789abcdefE=;/') for _ in range(ln))
+        ops.append('henc ' + hx(s)); ops.append('hrt ' + hx(s))
+    return ops
+
+
+def hdec_shared_stream(g, n=80):
+    """an application that receives into ONE bytearray and decodes from it: the object is identical from call to
+    call, its contents are not"""
+    ops = []
+    rnd = g.rnd
+    prev = None
+    for _ in range(n):
+        s = bytes(rnd.choice(b'abcdefgh012') for _ in range(rnd.choice([1, 3, 3, 3, 8])))
+        e = huff_encode(s)
+        r = rnd.random()
+        if r < 0.25 and prev is not None and len(prev) == len(e):
+            pass
+        if r < 0.2:
+            e = e[:-1] + bytes([e[-1] & 0xfe]) if e else e
+        ops.append('hdec %s #buf=shared' % hx(e))
+        prev = e
+    # same length, different content, alternating valid / invalid
+    for a, b in [(b'abc', b'abd'), (b'0', b'1'), (b'xyz', b'xy')]:
+        ea, eb = huff_encode(a), huff_encode(b)
+        ops.append('hdec %s #buf=shared' % hx(ea)); ops.append('hdec %s #buf=shared' % hx(eb)); ops.append('hdec %s #buf=shared' % hx(ea))
+        ops.append('hdec %s #buf=shared' % hx(b'\xff' * len(ea)))
+    return ops
+
+
+def big_history_table_stream(count=4300):
+    """more than 4096 pairwise different insertions into one table, then look-ups of live entries"""
+    ops = ['tnew 900']
+    for i in range(count):
+        ops.append('tadd 900 %s %s' % (hx(b'n%d' % (i % 97)), hx(b'v%d' % i)))
+        if i % 500 == 499 or i > count - 4:
+            ops.append('tsearch 900 %s %s' % (hx(b'n%d' % (i % 97)), hx(b'v%d' % i)))
+            ops.append('tsearch 900 %s %s' % (hx(b'n%d' % ((i - 20) % 97)), hx(b'v%d' % (i - 20))))
+            ops.append('tget 900 62'); ops.append('tget 900 80')
+    for j in range(count - 60, count, 7):
+        ops.append('tsearch 900 %s %s' % (hx(b'n%d' % (j % 97)), hx(b'v%d' % j)))
+    return ops
+
+
+def big_table_encoder_stream(g, start_id=15000):
+    """tables larger than the default with hundreds of live entries; every field re-encoded afterwards"""
+    ops = []
+    e = start_id
+    for size, cnt in ((16384, 200), (65536, 300)):
+        e += 1
+        ops.append('enew %d' % e); ops.append('dnew %d 10000000' % e); ops.append('dallow %d %d' % (e, size))
+        ops.append('esize %d %d' % (e, size))
+        fields = [(b'f%03d' % i, b'v%d' % (i * 7)) for i in range(cnt)]
+        for i in range(0, cnt, 25):
+            ops.append('eenc %d %d %s' % (e, i % 2, ' '.join('%s:%s:0' % (hx(n), hx(v)) for n, v in fields[i:i + 25])))
+            ops.append('pipe %d 1 %d' % (e, e))
+        for i in range(0, cnt, 30):
+            ops.append('eenc %d 0 %s' % (e, ' '.join('%s:%s:0' % (hx(n), hx(v)) for n, v in fields[i:i + 30])))
+            ops.append('pipe %d 1 %d' % (e, e))
+    # a single entry that exactly fills the table, sent twice (default size and a small one)
+    for size in (4096, 48, 100):
+        e += 1
+        ops.append('enew %d' % e)
+        if size != 4096:
+            ops.append('esize %d %d' % (e, size))
+        n = b'x-trace-id'
+        v = b'c' * (size - 32 - len(n))
+        for _ in range(3):
+            ops.append('eenc %d 0 %s:%s:0' % (e, hx(n), hx(v)))
+        ops.append('eenc %d 0 %s:%s:0 %s:%s:0' % (e, hx(b'a'), hx(b'b'), hx(n), hx(v)))
+    return ops
+
+
+def api_forms_conn_stream(g, n=25, start_id=16000):
+    """connections fed through the API forms, including falsy/truthy non-bool sensitivity marks (None, 0, 1) and
+    application subclasses of the two tuple classes; names that match the table with a different value"""
+    ops = []
+    rnd = g.rnd
+    names = [b'cookie', b':path', b'x-a', b'etag', b'accept', b':method']
+    vals = [b'', b'1', b'GET', b'/idx', b'abc', b'zz' * 10]
+    for c in range(n):
+        i = start_id + c
+        ops.append('enew %d' % i); ops.append('dnew %d' % i)
+        for b in range(rnd.randint(2, 6)):
+            fs = []
+            for _ in range(rnd.randint(1, 5)):
+                nm, v = rnd.choice(names), rnd.choice(vals)
+                k = rnd.choice(['2', '3f', '3t', '3n', '30', '31', 'H', 'N', 'T', 'S'])
+                fs.append('%s%s%s:%s:%s' % (k, rnd.choice('bs'), rnd.choice('bs'), hx(nm), hx(v)))
+            ops.append('eapi %d %d %s %s' % (i, rnd.random() < 0.5, rnd.choice(['list', 'iter', 'tuple', 'gen']), ' '.join(fs)))
+            ops.append('pipe %d %d %d' % (i, rnd.choice([0, 1]), i))
+    return ops
+
+
+def empty_forms_stream(start_id=17000):
+    """empty header sets in every container form, with a size change pending"""
+    ops = []
+    i = start_id
+    groups = []
+    for size in (100, 0, 4096):
+        ids = []
+        for cont in ('list', 'iter', 'tuple', 'gen', 'dict'):
+            i += 1
+            ids.append(i)
+            ops.append('enew %d' % i)
+            ops.append('eapi %d 0 list 2bb:61:62' % i)
+            ops.append('esize %d %d' % (i, size))
+            ops.append('eapi %d 0 %s -' % (i, cont))
+            ops.append('eapi %d 0 list 2bb:61:62' % i)
+        groups.append(ids)
+    return ops, groups
